@@ -444,6 +444,38 @@ def build_T4fs(tree):
                                    "segment_numbers=np.array(segment_numbers)"))
 
 
+def build_T4fv(tree):
+    """`Image.get_volume`, tiled branch: the request is normalised once with `outputs_as_indices=True` and the 0-based results are
+    handed to `get_total_pixel_matrix(..., as_indices=True)` -- both calls regenerated as the tuples they forward."""
+    fn = find_func(tree, 'Image.get_volume')
+    std = [n for n in ast.walk(fn) if isinstance(n, ast.Call) and _norm(n.func) == 'self._standardize_row_column_indices']
+    if len(std) != 1 or [_norm(a) for a in std[0].args] != ['row_start', 'row_end', 'column_start', 'column_end']:
+        raise Unsupported('Image.get_volume: single call _standardize_row_column_indices(row_start, row_end, column_start, column_end, ...) not found')
+    skw = {k.arg: k.value for k in std[0].keywords}
+    if sorted(skw) != ['as_indices', 'columns', 'outputs_as_indices', 'rows'] or _norm(skw['rows']) != 'total_rows' or _norm(skw['columns']) != 'total_columns':
+        raise Unsupported('Image.get_volume: keywords of the normalisation call changed')
+    txt = ''.join(ast.unparse(fn).split())
+    for needle in ("ifself.is_tiled:total_rows=self.TotalPixelMatrixRowstotal_columns=self.TotalPixelMatrixColumns",
+                   "row_start,row_end,column_start,column_end=self._standardize_row_column_indices("):
+        if needle not in txt:
+            raise Unsupported('Image.get_volume changed (missing ' + needle[:60] + ')')
+    tpm = [n for n in ast.walk(fn) if isinstance(n, ast.Call) and _norm(n.func) == 'self.get_total_pixel_matrix']
+    if len(tpm) != 1 or tpm[0].args:
+        raise Unsupported('Image.get_volume: single keyword call of get_total_pixel_matrix not found')
+    tkw = {k.arg: k.value for k in tpm[0].keywords}
+    want = ['row_start', 'row_end', 'column_start', 'column_end', 'as_indices']
+    if any(k not in tkw for k in want):
+        raise Unsupported('Image.get_volume: region keywords missing in the get_total_pixel_matrix call')
+    b1 = [ast.parse(ast.unparse(ast.Return(value=ast.Tuple(elts=[skw['as_indices'], skw['outputs_as_indices']], ctx=ast.Load())))).body[0]]
+    t1 = translate_block(b1, 'volumeStdCall', [('as_indices', 'bool')], {},
+                         doc='`Image.get_volume`: (as_indices, outputs_as_indices) handed to `_standardize_row_column_indices`')
+    b2 = [ast.parse(ast.unparse(ast.Return(value=ast.Tuple(elts=[tkw[k] for k in want], ctx=ast.Load())))).body[0]]
+    t2 = translate_block(b2, 'volumeTpmCall', [('row_start', 'int'), ('row_end', 'int'), ('column_start', 'int'), ('column_end', 'int')], {},
+                         doc='`Image.get_volume` (tiled): (row_start, row_end, column_start, column_end, as_indices) handed to '
+                             '`get_total_pixel_matrix` AFTER the normalisation')
+    return t1 + '\n\n' + t2, span_sha([ast.Expr(value=std[0]), ast.Expr(value=tpm[0])])
+
+
 TARGETS = {
     'T6': {'file': 'spatial.py', 'build': build_T6},
     'T4o': {'file': 'seg/sop.py', 'build': build_T4o, 'imports': ['HdVerif.Model.Round']},
@@ -453,4 +485,5 @@ TARGETS = {
     'T4t': {'file': 'image.py', 'build': build_T4t},
     'T4fi': {'file': 'image.py', 'build': build_T4fi},
     'T4fs': {'file': 'seg/sop.py', 'build': build_T4fs},
+    'T4fv': {'file': 'image.py', 'build': build_T4fv},
 }
